@@ -48,5 +48,13 @@ caught = [r for r in n_ind if not r[5].startswith("no") and not r[5].startswith(
 out += ["", "Independent changes: %d stored, %d reported by the quick check of their property, %d missed, %d no longer applicable (neutralised by a later fix: commit), %d not evaluated yet." % (
     len(n_ind), len([r for r in caught if r[5] != "not evaluated yet"]), len([r for r in n_ind if r[5] == "no"]),
     len([r for r in n_ind if r[5].startswith("n/a")]), len([r for r in n_ind if r[5] == "not evaluated yet"]))]
+try:
+    stale = open(os.path.join(V, "seeded", "STALE_AT_HEAD.txt")).read().split()
+except Exception:
+    stale = []
+if stale:
+    out += ["", "Evaluated against an earlier HEAD of /repo: the patches of " + ", ".join(stale) +
+            " no longer apply (or compile) on the current tree because later `fix:` commits (F12, F15) or hook files touched the same lines;"
+            " their rows show the result of their last evaluation. C05-16 was re-based by hand (original kept as `patch.orig.diff`)."]
 open(os.path.join(V, "seeded", "README.md"), "w").write("\n".join(out) + "\n")
 print(out[-1])
